@@ -223,7 +223,16 @@ func main() {
 				version = ct.Version(1 + r.Intn(255))
 			}
 			sct := ct.SignedCertificateTimestamp{SCTVersion: version, Timestamp: ts, Extensions: ext}
-			entry := ct.LogEntry{Leaf: leaf}
+			// the entry handed to the serializer is what a verifier rebuilds from the chain: its own
+			// timestamp and extensions are NOT what is signed (the SCT's are)
+			vleaf := leaf
+			vte := *leaf.TimestampedEntry
+			vleaf.TimestampedEntry = &vte
+			if r.Intn(3) != 0 {
+				vte.Timestamp = r.Uint64()
+				vte.Extensions = payload(r, r.Intn(4))
+			}
+			entry := ct.LogEntry{Leaf: vleaf}
 			if r.Intn(8) == 0 {
 				entry.Leaf.TimestampedEntry = &ct.TimestampedEntry{EntryType: ct.LogEntryType(2 + r.Intn(40000)), Timestamp: ts}
 				etype = uint64(entry.Leaf.TimestampedEntry.EntryType)
@@ -241,7 +250,7 @@ func main() {
 				PropOK: (serr == nil) == (version == ct.V1 && etype <= 1), Note: "signature input produced for unknown version / entry type (or refused for a known one)",
 				Tags:   []string{fmt.Sprintf("sct-input:ok=%v", serr == nil)},
 			})
-			if serr == nil && etype <= 1 && entry.Leaf.TimestampedEntry == leaf.TimestampedEntry {
+			if serr == nil && etype <= 1 && entry.Leaf.TimestampedEntry == &vte {
 				w.Add(lib.Case{
 					Coq:    fmt.Sprintf("CRfcSctInput %s %s %s %s", lib.Nn(ts), entryCoq, lib.Bytes(ext), lib.Bytes(sb)),
 					Input:  map[string]interface{}{"op": "rfc-sct-siginput", "precert": precert},
